@@ -247,7 +247,8 @@ SCHEMES_BAD = ["javascript", "//[javascript", "http://[", "javascript://[x", "ja
                "javascript&amp;colon;", "&amp;#106;avascript", "java&amp;Tab;script", "data", "DATA", "d&#97;ta", "da\tta", " data"]
 DATA_BODIES = ["text/html,<script>alert(1)</script>", "text/html;base64,PHNjcmlwdD4=", "image/svg+xml,<svg onload=alert(1)>", "image/png;base64,AAAA", ",x", ";base64,AAAA", "TEXT/HTML,x",
                "text/html ;charset=utf-8,x", " text/html,x", "text/plain,x", "image/gif;base64,R0lG", "text/html;charset=utf-8;base64,x", "application/xhtml+xml,x", "image/png,x", "image/svg+xml;base64,x",
-               "text/javascript,alert(1)", "text/html&#44;x", "text\t/html,x", "text/html\n,x", "image/png;text/html,x", "text/html", "x-foo/bar,x", "text/plain;charset=utf-8,<b>"]
+               "text/javascript,alert(1)", "text/plain+xml,<x:script xmlns:x='http://www.w3.org/1999/xhtml'>", "image/png+xml;base64,AAAA", "image/gif+json,x", "text/plain+x;charset=utf-8,x",
+               "image/jpeg+a.b-c,x", "image/png+,x", "text/plain;+xml,x", "image/png.x,x", "image/png-x;base64,x", "text/html&#44;x", "text\t/html,x", "text/html\n,x", "image/png;text/html,x", "text/html", "x-foo/bar,x", "text/plain;charset=utf-8,<b>"]
 URI_ATTRS = ["href", "src", "action", "cite", "longdesc", "poster", "background", "ping", "xlink:href", "xml:base", "datasrc", "dynsrc", "lowsrc", "formaction", "data", "codebase", "manifest", "icon", "usemap", "profile"]
 URI_TAGS = ["a", "img", "form", "q", "video", "body", "svg", "iframe", "object", "embed", "input", "button", "blockquote", "area", "link", "base", "audio", "source", "table", "td", "del", "ins", "math", "use", "image", "script", "x"]
 CSS_DECLS = ["color: url( )", "color: url(1 2)", "cursor: url( 1, 2 )", "color: url ( )", "color: url(", "color: url(1", "color: url(1) url(2 3)",
